@@ -34,8 +34,8 @@ package apd
 // rep(z): words in range; an inline negative is non-zero ("zero is never negative"); the handle is valid.
 // Layer-2 callers use the same contracts with val(z) abstract and rep(z) == true.
 
-//@ define heapform(z: *BigInt): bool = z._inner != nil && z._inner != negSentinel
-//@ define sep(z: *BigInt, x: *BigInt): bool = z == x || !(heapform(z) && heapform(x) && z._inner == x._inner)
+//@ define l1 heapform(z: *BigInt): bool = z._inner != nil && z._inner != negSentinel
+//@ define l1 sep(z: *BigInt, x: *BigInt): bool = z == x || !(heapform(z) && heapform(x) && z._inner == x._inner)
 //@ define u64(v: int): bool = 0 <= v && v < 18446744073709551616
 
 //@ axiom bitlen_hi(w0: int, w1: int): 0 <= w0 && w0 < 18446744073709551616 && w1 > 0 ==> bitlen(w0 + 18446744073709551616 * w1) == 64 + bitlen(w1)
